@@ -34,6 +34,7 @@ struct RouterSession : Session {
     bool ortho = false, useTransactions = true, costOraclesApply = true, armedPinsGeometry = false;
     bool tunSelective = true, tunInvis = true, tunLees = true;
     bool dead = false, dirty = false, zeroMoveOnly = false;
+    std::vector<Pt> curRoute;        // the route being classified (for throughShapeClass)
     int pendingEdits = 0;
     // fault state of the current op
     int checks = 0, cancelAt = 0; bool cancelRequested = false; long deadlineMs = 0; unsigned lastElapsed = 0;
